@@ -50,6 +50,9 @@ class Unit:
         self.noop_calls = []    # predicates on ast.Call (statement position) that are skipped (logging, tqdm, print)
         self.hints = {}         # local / parameter name -> type
         self.dict_keys = {}     # rec name -> {python key: (coq field, value type)}  (dict modelled as record of options)
+        self.call_exprs = {}    # "self.a.b" -> (fn(tr, arg_texts) -> (bind pattern, monadic text, value text), ret type): calls in expressions
+        self.call_stmts = {}    # "self.a.b" -> fn(tr, arg_texts) -> monadic text of type res <self pack> (statement-position calls)
+        self.pinned = {}        # exact source text of a statement -> Coq text ending in `in ` / `; ` placed before the continuation
         self.oracles = {}       # exact source text of an expression -> (coq text, type): values the model takes as inputs
         self.externals = {}     # self.<method> calls that are Section variables: name -> Fn (kind "pure": no self threading)
 
@@ -94,6 +97,13 @@ class Tr:
         if self.ret.startswith("opt:"):
             return "None"
         raise Abort("falls off the end / returns None, but the declared result type is %s" % self.ret)
+
+    def pack_state(self):
+        """the pattern binding the threaded state after a call that returns no value"""
+        t = "self"
+        if self.clocked:
+            t = "(self, k)"
+        return t
 
     def pack(self, t):
         """a value together with the threaded state (self, clock index) -- used for nested monadic blocks"""
@@ -354,6 +364,15 @@ class Tr:
         fn = ast.unparse(e.func)
         if e.keywords:
             raise Abort("keyword arguments: %s" % ast.unparse(e))
+        if fn in self.u.call_exprs:
+            mk, rty = self.u.call_exprs[fn]
+            bs, ts = [], []
+            for a in e.args:
+                b, t, _ = self.expr(a, env)
+                bs += b
+                ts.append(t)
+            pat, text, val = mk(self, ts)
+            return bs + [(pat, text)], val, rty
         if fn == "time.time" and not e.args:
             if not self.clocked:
                 raise Abort("time.time() in a function that is not declared clocked")
@@ -486,6 +505,27 @@ class Tr:
         nxt = lambda env2: self.block(rest, env2, rest_k)
         if isinstance(s, ast.Expr) and isinstance(s.value, ast.Constant):
             return nxt(env)
+        src = ast.unparse(s)
+        if src in self.u.pinned:
+            return self.u.pinned[src] + nxt(env)
+        if isinstance(s, ast.Expr) and isinstance(s.value, ast.Call) and ast.unparse(s.value.func) in self.u.call_stmts and not s.value.keywords:
+            bs, ts = [], []
+            for a in s.value.args:
+                b, t, _ = self.expr(a, env)
+                bs += b
+                ts.append(t)
+            return "%sdo %s <- %s; %s" % (self.binds(bs), self.pack_state(), self.u.call_stmts[ast.unparse(s.value.func)](self, ts), nxt(env))
+        # inside a decorator's wrapper: res = func(self, *args, **kwargs)
+        if getattr(self, "wrap", None) and isinstance(s, ast.Assign) and len(s.targets) == 1 and isinstance(s.targets[0], ast.Name) \
+                and ast.unparse(s.value) == "func(self, *args, **kwargs)":
+            f, args, rty = self.wrap
+            v = s.targets[0].id + "_v"
+            env[s.targets[0].id] = (v, rty)
+            pat = "self" if rty == "none" else "(self, %s)" % v
+            pre = ("fuel " if f.fueled else "") + ("clk k " if f.clocked else "")
+            if f.clocked:
+                pat = "(%s, k)" % pat
+            return "do %s <- %s %sself %s; %s" % (pat, f.coq, pre, " ".join(args), nxt(env))
         if isinstance(s, ast.Pass):
             return nxt(env)
         if isinstance(s, ast.Return):
